@@ -259,13 +259,13 @@ package rapid
 //@   params fn, t
 //@   ensures drawn >= old(drawn) && relyUser(t)
 //@   panics any: drawn >= old(drawn) && relyUser(t)
-//@   modifies drawn, t.failed, t.cleanups, elems(t.cleanups), t.ctx, t.cancelCtx, t.draws, stream(t.s)
+//@   modifies drawn, t.failed, t.cleanups, elems(t.cleanups), t.ctx, t.cancelCtx, t.draws, t.attempts, stream(t.s)
 
 //@ callback func(*T) (V, bool)
 //@   params fn, t
 //@   ensures drawn >= old(drawn) && relyUser(t)
 //@   panics any: drawn >= old(drawn) && relyUser(t)
-//@   modifies drawn, t.failed, t.cleanups, elems(t.cleanups), t.ctx, t.cancelCtx, t.draws, stream(t.s)
+//@   modifies drawn, t.failed, t.cleanups, elems(t.cleanups), t.ctx, t.cancelCtx, t.draws, t.attempts, stream(t.s)
 
 // pure user functions (keys, predicates, mappers): no access to a *T, may panic
 //@ callback func(E) K
@@ -288,7 +288,7 @@ package rapid
 //@   ensures t.failed == old(t.failed)
 //@   ensures drawn >= old(drawn) && relyUser(t) && t.draws == old(t.draws) && t.attempts == old(t.attempts) && discards >= old(discards)
 //@   panics any: drawn >= old(drawn) && relyUser(t) && t.draws == old(t.draws) && t.attempts == old(t.attempts) && discards >= old(discards)
-//@   modifies drawn, t.failed, t.cleanups, elems(t.cleanups), t.ctx, t.cancelCtx, t.draws, stream(t.s)
+//@   modifies drawn, t.failed, t.cleanups, elems(t.cleanups), t.ctx, t.cancelCtx, t.draws, t.attempts, stream(t.s)
 
 //@ func generatorImpl.String
 //@   params impl
@@ -308,7 +308,7 @@ package rapid
 //@   ensures [C03] drawn > old(drawn)
 //@   ensures relyUser(t) && t.draws == old(t.draws) && t.attempts == old(t.attempts) && discards >= old(discards)
 //@   panics any: drawn >= old(drawn) && relyUser(t) && t.draws == old(t.draws) && t.attempts == old(t.attempts) && discards >= old(discards)
-//@   modifies drawn, t.failed, t.cleanups, elems(t.cleanups), t.ctx, t.cancelCtx, t.draws, stream(t.s), onceDone, onceIn, discards
+//@   modifies drawn, t.failed, t.cleanups, elems(t.cleanups), t.ctx, t.cancelCtx, t.draws, t.attempts, stream(t.s), onceDone, onceIn, discards
 
 // ---------------------------------------------------------------------------------------------
 // collections.go
@@ -325,7 +325,7 @@ package rapid
 //@   requires [C03] g.minLen < 1<<52
 //@   ensures [C03] lenOK(len(result), g.minLen, g.maxLen)
 //@   panics any: true
-//@   modifies drawn, t.failed, t.cleanups, elems(t.cleanups), t.ctx, t.cancelCtx, t.draws, g.elem.str, g.elem.strOnce, lastWord, onceDone, onceIn, discards
+//@   modifies drawn, t.failed, t.cleanups, elems(t.cleanups), t.ctx, t.cancelCtx, t.draws, t.attempts, g.elem.str, g.elem.strOnce, lastWord, onceDone, onceIn, discards
 //@   loop 0 invariant [C01,C03,C04] len(sl) == repeat.count && repeatInv(repeat) && groupUsed(repeat)
 //@   loop 0 invariant [C01,C03,C04] repeat.minCount == minOf(g.minLen) && repeat.maxCount == maxOf(g.maxLen)
 
@@ -338,7 +338,7 @@ package rapid
 //@   requires [C03] g.minLen < 1<<52
 //@   ensures [C03] lenOK(len(result), g.minLen, g.maxLen)
 //@   panics any: true
-//@   modifies drawn, t.failed, t.cleanups, elems(t.cleanups), t.ctx, t.cancelCtx, t.draws, g.val.str, g.val.strOnce, g.key.str, g.key.strOnce, lastWord, onceDone, onceIn, discards
+//@   modifies drawn, t.failed, t.cleanups, elems(t.cleanups), t.ctx, t.cancelCtx, t.draws, t.attempts, g.val.str, g.val.strOnce, g.key.str, g.key.strOnce, lastWord, onceDone, onceIn, discards
 //@   loop 0 invariant [C01,C03,C04] len(m) == repeat.count && repeatInv(repeat) && groupUsed(repeat)
 //@   loop 0 invariant [C01,C03,C04] repeat.minCount == minOf(g.minLen) && repeat.maxCount == maxOf(g.maxLen)
 
@@ -349,7 +349,7 @@ package rapid
 //@   noframe "calls an arbitrary generator attempt function"
 //@   requires [C03] tries >= 0 && gen != nil
 //@   panics any: true
-//@   modifies drawn, t.failed, t.cleanups, t.ctx, t.cancelCtx, t.draws, stream(t.s), discards
+//@   modifies drawn, t.failed, t.cleanups, t.ctx, t.cancelCtx, t.draws, t.attempts, stream(t.s), discards
 //@   loop 0 invariant [C03] 0 <= n && n <= tries
 //@   loop 0 decreases tries - n
 //   Replay discipline (C04, C01): the group of a try is closed as discarded iff the try failed.
@@ -369,7 +369,7 @@ package rapid
 //@   noframe "runs element generators, which may run user code"
 //@   requires [C03] len(g.gens) > 0
 //@   panics any: true
-//@   modifies drawn, t.failed, t.cleanups, elems(t.cleanups), t.ctx, t.cancelCtx, t.draws, onceDone, onceIn, lastWord, discards
+//@   modifies drawn, t.failed, t.cleanups, elems(t.cleanups), t.ctx, t.cancelCtx, t.draws, t.attempts, onceDone, onceIn, lastWord, discards
 
 //@ func (*ptrGen).value
 //@   immutable g
@@ -377,7 +377,7 @@ package rapid
 //@   noframe "runs element generators, which may run user code"
 //@   ensures [C03] implies(!g.allowNil, result != nil)
 //@   panics any: true
-//@   modifies drawn, t.failed, t.cleanups, elems(t.cleanups), t.ctx, t.cancelCtx, t.draws, lastWord, onceDone, onceIn, discards
+//@   modifies drawn, t.failed, t.cleanups, elems(t.cleanups), t.ctx, t.cancelCtx, t.draws, t.attempts, lastWord, onceDone, onceIn, discards
 
 //@ func (*permGen).value
 //@   immutable g
@@ -431,7 +431,7 @@ package rapid
 //@   ensures [C03] implies(g.maxLen >= 0, len(result) <= g.maxLen)
 //@   ensures [C03] minOf(g.minRunes) <= runesWritten - old(runesWritten) && runesWritten - old(runesWritten) <= maxOf(g.maxRunes)
 //@   panics any: true
-//@   modifies drawn, runesWritten, t.failed, t.cleanups, elems(t.cleanups), t.ctx, t.cancelCtx, t.draws, g.elem.str, g.elem.strOnce, lastWord, onceDone, onceIn, discards
+//@   modifies drawn, runesWritten, t.failed, t.cleanups, elems(t.cleanups), t.ctx, t.cancelCtx, t.draws, t.attempts, g.elem.str, g.elem.strOnce, lastWord, onceDone, onceIn, discards
 //@   loop 0 invariant [C03] repeatInv(repeat) && groupUsed(repeat) && len(b.buf) <= maxLen
 //@   loop 0 invariant [C01,C03,C04] repeat.minCount == minOf(g.minRunes) && repeat.maxCount == maxOf(g.maxRunes) && maxLen == maxOf(g.maxLen)
 //@   loop 0 invariant [C01,C03,C04] runesWritten - old(runesWritten) == repeat.count
@@ -611,7 +611,7 @@ package rapid
 //@   ensures len(t.cleanups) >= old(len(t.cleanups)) && forall(k, 0, old(len(t.cleanups)), t.cleanups[k] == old(t.cleanups[k]))
 //@   ensures implies(old(t.failed) != "", t.failed != "") && drawn >= old(drawn) && unlocked(t) && sameOrNewArr(t)
 //@   panics any: len(t.cleanups) >= old(len(t.cleanups)) && implies(old(t.failed) != "", t.failed != "") && drawn >= old(drawn) && unlocked(t) && sameOrNewArr(t)
-//@   modifies t.failed, t.cleanups, elems(t.cleanups), t.draws, drawn
+//@   modifies t.failed, t.cleanups, elems(t.cleanups), t.draws, t.attempts, drawn
 
 //@ func (*T).cleanup
 //@   requires [C10,C14] unlocked(t) && ctxInv(t)
@@ -621,7 +621,7 @@ package rapid
 //@   ensures [C02] implies(old(t.failed) != "", t.failed != "")
 //@   ensures [C10] sameOrNewArr(t) && drawn >= old(drawn)
 //@   panics any [C10,C11]: drawn >= old(drawn) && sameOrNewArr(t) && len(t.cleanups) == 0 && t.ctx == nil && t.cancelCtx == nil && !cleaning(t) && unlocked(t) && implies(old(t.ctx) != nil, cancelled[old(t.ctx)]) && implies(old(t.failed) != "", t.failed != "")
-//@   modifies t.failed, t.cleanups, elems(t.cleanups), t.ctx, t.cancelCtx, t.cleaning.v, t.draws, drawn, cancelled[t.ctx], lockmode[addr(t.mu)]
+//@   modifies t.failed, t.cleanups, elems(t.cleanups), t.ctx, t.cancelCtx, t.cleaning.v, t.draws, t.attempts, drawn, cancelled[t.ctx], lockmode[addr(t.mu)]
 //   LIFO (C10): the callback run is the one just popped from the top of the stack - the element right above the
 //   new top in the same backing array.
 //@   at cleanup#0 assert [C10] fnval == t.cleanups[len(t.cleanups)]
@@ -651,6 +651,7 @@ package rapid
 //   The failure site starts at the frame that panicked: panicToError skips exactly its own frame, the recovering
 //   literal and runtime.Callers (3) - skipping more would drop the panicking function's own line (C05).
 //@   at panicToError#0 assert [C05] arg1 == 3
+//@   at panicToError#1 assert [C05] arg1 == 3
 //@   at prop#0 set propFalsified = false
 //@   at prop#0 onpanic propFalsified = !isInvalidData(panicval)
 //@   at prop#0 set cleanupSkipped = false
@@ -666,7 +667,7 @@ package rapid
 //@   ensures [C05] implies(result != nil, result.traceback != "    <no error>\n")
 //@   ensures drawn >= old(drawn)
 //@   ensures [C05] streamRely(t.s)
-//@   modifies t.failed, t.cleanups, elems(t.cleanups), t.ctx, t.cancelCtx, t.cleaning.v, t.draws, drawn, lockmode[addr(t.mu)], stream(t.s), propFalsified, cleanupSkipped, cancelled, discards
+//@   modifies t.failed, t.cleanups, elems(t.cleanups), t.ctx, t.cancelCtx, t.cleaning.v, t.draws, t.attempts, drawn, lockmode[addr(t.mu)], stream(t.s), propFalsified, cleanupSkipped, cancelled, discards
 
 // ---------------------------------------------------------------------------------------------
 // combinators.go: Custom
@@ -705,6 +706,7 @@ package rapid
 //@   immutable g
 //@   ensures [C15] true
 //@   assumes-pre len(t.refDraws) == 0
+//@   assumes-pre 0 <= t.draws && t.draws < math.MaxInt && 0 <= t.attempts && t.attempts < math.MaxInt
 //@   noframe "draws through arbitrary generator implementations"
 //@   assumes "generator implementations signal a failure only by panicking, never by recording it on the enclosing *T"
 //@   ensures t.failed == old(t.failed)
@@ -712,9 +714,11 @@ package rapid
 //   The draw counter counts every completed Draw and nothing else, whatever the logging mode: runAction tells
 //   "skipped before drawing" from "drew, then skipped" by it, so a replay with logging on (final replay, fuzzing,
 //   -rapid.v) must count exactly like the run that found the failure.
+//   (the counters are assumed not to wrap: fewer than 2^63 draws on one T)
 //@   ensures [C01,C04,C08,C13] t.draws == old(t.draws) + 1 && t.attempts == old(t.attempts) + 1 && discards >= old(discards)
-//@   panics any [C01,C04,C08,C13]: drawn >= old(drawn) && relyUser(t) && t.draws == old(t.draws) && t.attempts == old(t.attempts) + 1 && discards >= old(discards)
-//@   modifies drawn, t.failed, t.cleanups, elems(t.cleanups), t.ctx, t.cancelCtx, t.draws, stream(t.s), onceDone, onceIn, discards
+//@   ensures [C01,C04,C08,C13] t.draws > old(t.draws) && t.attempts > old(t.attempts)
+//@   panics any [C01,C04,C08,C13]: drawn >= old(drawn) && relyUser(t) && t.draws == old(t.draws) && t.attempts == old(t.attempts) + 1 && t.attempts > old(t.attempts) && discards >= old(discards)
+//@   modifies drawn, t.failed, t.cleanups, elems(t.cleanups), t.ctx, t.cancelCtx, t.draws, t.attempts, stream(t.s), onceDone, onceIn, discards
 
 //@ func (*stateMachine).executeAction
 //@   noframe "calls user actions"
@@ -724,7 +728,7 @@ package rapid
 //@   ensures [C04] t.attempts > old(t.attempts) && t.draws >= old(t.draws) && discards >= old(discards)
 //@   ensures [C08] result == !now(invalid) && !now(skipped)
 //@   panics any [C04,C08]: drawRely(t)
-//@   modifies drawn, t.failed, t.cleanups, elems(t.cleanups), t.ctx, t.cancelCtx, t.draws, lockmode[addr(t.mu)], stream(t.s), onceDone, onceIn, discards
+//@   modifies drawn, t.failed, t.cleanups, elems(t.cleanups), t.ctx, t.cancelCtx, t.draws, t.attempts, lockmode[addr(t.mu)], stream(t.s), onceDone, onceIn, discards
 //@   loop 0 invariant [C08] 0 <= n && n <= validActionTries && t.failed == "" && unlocked(t) && drawn >= old(drawn)
 //@   loop 0 invariant [C04] drawRely(t) && implies(n > 0, t.attempts > old(t.attempts))
 //@   loop 0 decreases validActionTries - n
@@ -1213,7 +1217,7 @@ package rapid
 //@   noframe "runs the deferred generator"
 //@   ensures [C15] true
 //@   panics any: true
-//@   modifies drawn, t.failed, t.cleanups, elems(t.cleanups), t.ctx, t.cancelCtx, t.draws, stream(t.s), onceDone, onceIn, discards
+//@   modifies drawn, t.failed, t.cleanups, elems(t.cleanups), t.ctx, t.cancelCtx, t.draws, t.attempts, stream(t.s), onceDone, onceIn, discards
 
 //@ callback func() *Generator[V]
 //@   params fn
@@ -1310,7 +1314,7 @@ package rapid
 //@   ensures [C10] len(t.cleanups) == 0 && t.ctx == nil && t.cancelCtx == nil && !cleaning(t) && unlocked(t)
 //@   ensures [C10] 1 <= result1 && result1 <= exampleMaxTries
 //@   panics any [C10]: len(t.cleanups) == 0 && t.ctx == nil && t.cancelCtx == nil && !cleaning(t) && unlocked(t)
-//@   modifies drawn, t.failed, t.cleanups, elems(t.cleanups), t.ctx, t.cancelCtx, t.cleaning.v, t.draws, cancelled, lockmode[addr(t.mu)], stream(t.s), onceDone, onceIn, discards
+//@   modifies drawn, t.failed, t.cleanups, elems(t.cleanups), t.ctx, t.cancelCtx, t.cleaning.v, t.draws, t.attempts, cancelled, lockmode[addr(t.mu)], stream(t.s), onceDone, onceIn, discards
 //@   loop 0 invariant [C10] 1 <= i && i <= exampleMaxTries && unlocked(t) && ctxInv(t) && !cleaning(t)
 
 //@ func (*Generator).Example
@@ -1559,21 +1563,21 @@ package rapid
 //@   at g.fn#0 set predOK = result
 //@   ensures [C03] result1 == predOK
 //@   panics any: true
-//@   modifies drawn, t.failed, t.cleanups, elems(t.cleanups), t.ctx, t.cancelCtx, t.draws, stream(t.s), onceDone, onceIn, predOK, lastWord, discards
+//@   modifies drawn, t.failed, t.cleanups, elems(t.cleanups), t.ctx, t.cancelCtx, t.draws, t.attempts, stream(t.s), onceDone, onceIn, predOK, lastWord, discards
 
 //@ func (*filteredGen).value
 //@   immutable g
 //@   ensures [C15] true
 //@   noframe "runs the wrapped generator and the user's predicate"
 //@   panics any: true
-//@   modifies drawn, t.failed, t.cleanups, elems(t.cleanups), t.ctx, t.cancelCtx, t.draws, stream(t.s), onceDone, onceIn, predOK, lastWord, discards
+//@   modifies drawn, t.failed, t.cleanups, elems(t.cleanups), t.ctx, t.cancelCtx, t.draws, t.attempts, stream(t.s), onceDone, onceIn, predOK, lastWord, discards
 
 //@ func (*customGen).value
 //@   immutable g
 //@   ensures [C15] true
 //@   noframe "runs the user's generator function"
 //@   panics any: true
-//@   modifies drawn, t.failed, t.cleanups, elems(t.cleanups), t.ctx, t.cancelCtx, t.draws, stream(t.s), onceDone, onceIn, lastWord, cancelled, lockmode, discards
+//@   modifies drawn, t.failed, t.cleanups, elems(t.cleanups), t.ctx, t.cancelCtx, t.draws, t.attempts, stream(t.s), onceDone, onceIn, lastWord, cancelled, lockmode, discards
 
 //@ func (*mappedGen).value
 //@   immutable g
@@ -1581,14 +1585,14 @@ package rapid
 //@   ensures [C15] true
 //@   noframe "runs the wrapped generator and the user's function"
 //@   panics any: true
-//@   modifies drawn, t.failed, t.cleanups, elems(t.cleanups), t.ctx, t.cancelCtx, t.draws, stream(t.s), onceDone, onceIn, lastWord, discards
+//@   modifies drawn, t.failed, t.cleanups, elems(t.cleanups), t.ctx, t.cancelCtx, t.draws, t.attempts, stream(t.s), onceDone, onceIn, lastWord, discards
 
 //@ func (*asAnyGen).value
 //@   immutable g
 //@   ensures [C15] true
 //@   noframe "runs the wrapped generator"
 //@   panics any: true
-//@   modifies drawn, t.failed, t.cleanups, elems(t.cleanups), t.ctx, t.cancelCtx, t.draws, stream(t.s), onceDone, onceIn, lastWord, discards
+//@   modifies drawn, t.failed, t.cleanups, elems(t.cleanups), t.ctx, t.cancelCtx, t.draws, t.attempts, stream(t.s), onceDone, onceIn, lastWord, discards
 
 // The deadline of a Check (C09: fewer than N cases are accepted only near it): the test's own deadline when it has
 // one, otherwise now + 24h - never the zero time of a (time.Time, false) answer.
